@@ -223,7 +223,7 @@ def base_plan(tier, seed, classes=('pess', 'opt', 'mcs'), opt_scripts=True, thre
                          dict(pb=2, max_exec=4000 if q else 30000)))
             plan.append((cls, programs.four(cls, full=not q), dict(pb=1 if q else 2, max_exec=500 if q else 8000)))
             if cls == 'opt' and opt_scripts:
-                plan.append((cls, programs.cross3(cls, ('GTX', 'GTI', 'PRV', 'GVV'), ('X', 'DNG', 'XSV'), ('S', 'SIX', 'X')),
+                plan.append((cls, programs.cross3(cls, ('GTX', 'GTI', 'PRV', 'GVV'), ('X', 'DNG', 'XSV', 'XX'), ('S', 'SIX', 'X')),
                              dict(pb=1 if q else 2, max_exec=600 if q else 20000)))
         for fam, par in extra:
             pr = fam(cls)
@@ -300,7 +300,7 @@ def check_c10(prop, tier, seed):
 def opt_plan(tier, seed):
     q = tier == 'quick'
     return [('opt', programs.cross2('opt', ALLOPT + ('GTXX', 'XSV0')), dict(pb=2 if q else 3, max_exec=3000 if q else 60000)),
-            ('opt', programs.cross3('opt', ('GTX', 'GTI', 'GTS', 'PRV', 'GVV'), ('X', 'DNG', 'XSV', 'UPG'), ('S', 'SIX', 'X', 'XSV')),
+            ('opt', programs.cross3('opt', ('GTX', 'GTI', 'GTS', 'PRV', 'GVV'), ('X', 'DNG', 'XSV', 'UPG', 'XX'), ('S', 'SIX', 'X', 'XSV')),
              dict(pb=1 if q else 2, max_exec=600 if q else 20000)),
             ('opt', programs.opt_basic() + programs.opt_version() + programs.opt_prepare() + programs.opt_mix3(),
              dict(pb=2 if q else 3, max_exec=3000 if q else 40000))]
@@ -327,7 +327,7 @@ def check_c09(prop, tier, seed):
 def check_c13(prop, tier, seed):
     q = tier == 'quick'
     plan = [('opt', programs.cross2('opt', ('PRV',), ALLOPT, tag='pr2'), dict(pb=2 if q else 3, max_exec=6000 if q else 60000)),
-            ('opt', programs.cross3('opt', ('PRV',), ('X', 'DNG', 'XSV', 'UPG', 'DNUP'), ('S', 'SIX', 'X', 'PRV')),
+            ('opt', programs.cross3('opt', ('PRV',), ('X', 'DNG', 'XSV', 'UPG', 'DNUP', 'XX'), ('S', 'SIX', 'X', 'PRV')),
              dict(pb=1 if q else 2, max_exec=800 if q else 20000)),
             ('opt', programs.opt_prepare() + programs.opt_mix3(), dict(pb=2 if q else 3, max_exec=3000 if q else 40000))]
     res = lock_abs_check(prop, tier, seed, ['CkPrepare', 'CkOptimistic', 'CkGuards', 'CkProgress', 'CkCompat'], plan)
@@ -659,7 +659,7 @@ def id_programs(n, tier):
     out.append('P id%d_generations cap=%d hash=%s | %s || %s%s' % (n, n, ','.join(['0'] * (2 * n)), g1, g2, final))
     # stability: a thread asks again while a client holds a locked (strong) reference to its heartbeat
     out.append('P id%d_pinned cap=%d hash=0,0 | ID HB:1 BAR:1:2 BAR:2:2 ID BAR:3:2 BAR:4:2 EXP:1 ID | '
-               'BAR:1:2 HBL:1 BAR:2:2 %sBAR:3:2 HBU:1 BAR:4:2 EXP:1%s' % (n, n, 'ID ' if n > 1 else '', final))
+               'BAR:1:2 HBL:1 BAR:2:2 %sBAR:3:2 HBU:1 BAR:4:2 EXP:1%s' % (n, n, 'ID ' if n > 2 else '', final))
     return out
 
 
@@ -847,6 +847,8 @@ def epoch_programs(tier, which, seed=0):
                  ep_prog('ep_reuse_b', 2, ['G D', 'G D', 'F F'], hashes=[1, 1, 1]),
                  ep_prog('ep_reuse_c', 2, ['F F F', 'G D', 'GL RL D'], hashes=[0, 1, 1])]
         plan.append((2, progs, dict(pb=2 if q else 3, max_exec=6000 if q else 60000)))
+        plan.append((2, [ep_prog('ep_reuse_pin', 2, ['G D', 'BAR:1:2 G BAR:2:2 BAR:3:2 CUR D', 'F BAR:1:2 BAR:2:2 F F F BAR:3:2 F'], hashes=[0, 0, 1])],
+                     dict(pb=1, max_exec=60 if q else 600)))
     if 'mono' in which:
         progs = [ep_prog('ep_mono_a', 3, ['CUR MIN G CUR D MIN CUR', 'G D', 'F F F || F || CUR MIN']),
                  ep_prog('ep_mono_b', 3, ['MIN CUR MIN CUR', 'CUR G D', 'F F']),
@@ -878,6 +880,11 @@ def epoch_programs(tier, which, seed=0):
         # ID reuse: a second worker takes over the slot of an exited one and holds a list across a node boundary
         plan.append((2, [ep_prog('ep_reuse_edge', 2, ['G D', 'BAR:1:2 GL RL RL D', 'FQ:510 BAR:1:2 F F F'], hashes=[0, 0, 1])],
                      dict(pb=1 if q else 2, max_exec=60 if q else 600)))
+        # ... and without any preemption: the second worker takes its list, then the coordinator crosses the boundary, then the list is read again
+        plan.append((2, [ep_prog('ep_reuse_hold', 2, ['G D', 'BAR:1:2 GL RL BAR:2:2 BAR:3:2 RL D', 'FQ:510 BAR:1:2 BAR:2:2 F F F BAR:3:2 F'],
+                                 hashes=[0, 0, 1])], dict(pb=1, max_exec=40 if q else 400)))
+        plan.append((3, [ep_prog('ep_hold_a', 3, ['GL RL BAR:2:3 BAR:3:3 RL D', 'G BAR:2:3 BAR:3:3 D', 'BAR:2:3 FQ:300 F F BAR:3:3 F'])],
+                     dict(pb=1, max_exec=40 if q else 400)))
         # the same race at a node boundary: the worker reads epoch 767 (last of its range), two forwards follow
         plan.append((3, [ep_prog('ep_edge_a', 3, ['BAR:1:2 GL RL D', 'FQ:511 BAR:1:2 F F F'])], dict(pb=2, max_exec=150 if q else 1500)))
     return plan
